@@ -106,6 +106,9 @@ func c10Prop(st *CaseStats, fam int) func(t *rapid.T) {
 		if fam != FamSmall {
 			k = rapid.IntRange(1, 2).Draw(t, "nLeavesBig")
 		}
+		if fam == FamBig {
+			k = 1
+		}
 		isMerge := k > 1 || rapid.Bool().Draw(t, "mergeSingle")
 		modes := ChunkModes
 		if fam == FamWide {
@@ -128,6 +131,9 @@ func c10Prop(st *CaseStats, fam int) func(t *rapid.T) {
 			case FamWide:
 				p := GenWide(t)
 				batches[i], bd = p.Batch(sc), p.String()
+			case FamBig:
+				batches[i] = GenBatchBig(t, sc)
+				bd = fmt.Sprintf("big{%d docs}", len(batches[i]))
 			default:
 				batches[i] = GenBatch(t, sc, 8)
 				bd = batches[i].String()
@@ -343,7 +349,15 @@ func Canon(x *XSeg, withDictCounts bool) string {
 	}
 	for d, s := range x.Stored {
 		if len(s) > 0 {
-			fmt.Fprintf(&sb, "S %d %q\n", d, s)
+			fmt.Fprintf(&sb, "S %d", d)
+			for _, kv := range s {
+				if len(kv.Value) > 200 { // large values: length and hash
+					fmt.Fprintf(&sb, " {%q len=%d fnv=%x}", kv.Field, len(kv.Value), hash64(kv.Value))
+				} else {
+					fmt.Fprintf(&sb, " {%q %q}", kv.Field, kv.Value)
+				}
+			}
+			sb.WriteString("\n")
 		}
 	}
 	fs = fs[:0]
@@ -403,6 +417,7 @@ func goldenSpecs() []goldenSpec {
 		d2.Fields = []Field{{Name: "f128", Len: 1, DV: true, Terms: []Term{{T: "", Freq: 1}}}, {Name: "f139", Len: 1, Terms: []Term{{T: "x", Freq: 1}}}}
 		many = Batch{d0, d1, d2}
 	}
+	bigStored := Batch{{Fields: []Field{{Name: "title", Len: 1, Store: true, Value: strings.Repeat("one and a half mebibytes of stored text. ", 39000), Terms: []Term{{T: "big", Freq: 1}}}}}, {}}
 	dropSome := roaring.BitmapOf(1, 3)
 	wdDrop := roaring.New()
 	for i := 0; i < 2100; i += 3 {
@@ -421,6 +436,7 @@ func goldenSpecs() []goldenSpec {
 		{name: "wide-built-legacy1024", leaves: []Batch{wd2.Batch(sc)}, modes: []uint32{1024}},
 		{name: "wide-built-exact2048-adaptive", leaves: []Batch{wdExact.Batch(sc)}, modes: []uint32{1025}},
 		{name: "wide-merged-exact1024-adaptive", leaves: []Batch{wdExact1.Batch(sc), small}, modes: []uint32{1025, 1025}, drops: []*roaring.Bitmap{nil, roaring.BitmapOf(0, 1, 2, 3, 4)}, out: 1025},
+		{name: "bigstored-built", leaves: []Batch{bigStored}, modes: []uint32{1025}},
 		{name: "manyfields-built", leaves: []Batch{many}, modes: []uint32{1025}},
 		{name: "manyfields-merged", leaves: []Batch{many, small}, modes: []uint32{2, 1025}, drops: []*roaring.Bitmap{roaring.BitmapOf(0), nil}, out: 3},
 		{name: "wide-merged-adaptive", leaves: []Batch{wd.Batch(sc), wd2.Batch(sc)}, modes: []uint32{1025, 1025}, drops: []*roaring.Bitmap{wdDrop, nil}, out: 1025},
@@ -535,4 +551,10 @@ func firstLineDiff(a, b string) string {
 		}
 	}
 	return fmt.Sprintf("line counts differ: %d vs %d", len(la), len(lb))
+}
+
+func TestC10Big(t *testing.T) {
+	st := NewStats("C10Big", c10Rule)
+	defer st.Flush()
+	rapid.Check(t, c10Prop(st, FamBig))
 }
